@@ -903,10 +903,19 @@ fn gen_dyn_helper_fns(goenv: &GlobalGoEnv, req: &DynRequirements) -> Vec<goast::
     for (trait_name, for_ty) in vtables {
         let methods = trait_method_sigs(goenv, &trait_name);
 
+        // The impl functions are named after the type as written (`Box[int32]`), not after the
+        // nominal type mono collapsed it to.
+        let impl_ty = goenv
+            .liftenv
+            .monoenv
+            .dyn_impl_tys
+            .get(&for_ty)
+            .unwrap_or(&for_ty);
         for (method_name, params, ret_ty) in &methods {
             items.push(goast::Item::Fn(gen_dyn_wrap_fn(
                 &trait_name,
                 &for_ty,
+                impl_ty,
                 method_name,
                 params,
                 ret_ty,
@@ -925,6 +934,7 @@ fn gen_dyn_helper_fns(goenv: &GlobalGoEnv, req: &DynRequirements) -> Vec<goast::
 fn gen_dyn_wrap_fn(
     trait_name: &str,
     for_ty: &tast::Ty,
+    impl_ty: &tast::Ty,
     method_name: &str,
     params: &[tast::Ty],
     ret_ty: &tast::Ty,
@@ -938,7 +948,7 @@ fn gen_dyn_wrap_fn(
     }
 
     let trait_ident = TastIdent(trait_name.to_string());
-    let impl_name = trait_impl_fn_name(&trait_ident, for_ty, method_name);
+    let impl_name = trait_impl_fn_name(&trait_ident, impl_ty, method_name);
     let impl_go_name = go_ident(&impl_name);
 
     let receiver_go_ty = tast_ty_to_go_type(for_ty);
